@@ -154,5 +154,171 @@ pub proof fn lemma_honest_group_commitment<C: Ciphersuite>(ids: Set<Identifier<C
     assert(v =~= spec_commitment::<C>(bigf));
 }
 
+// ===================================================================================================
+// (T-c core) the commitment map part3 builds (own commitment + the round-one packages) is the SAME map l -> G*f(l) at every participant
+//@serves C07 C09
+pub proof fn lemma_part3_commitments_honest<C: Ciphersuite>(ids: Set<Identifier<C>>, f: Polys<C>, t: u16, n: u16, i: Identifier<C>,
+        s2: R2Sec<C>, r1: R1Map<C>, r2: R2Map<C>)
+    requires honest_part3_inputs::<C>(ids, f, t, n, i, s2, r1, r2)
+    ensures spec_part3_commitments::<C>(s2, r1) == dkg_commitments::<C>(ids, f), spec_part3_commitments::<C>(s2, r1).dom() == ids
+{
+    let m = spec_part3_commitments::<C>(s2, r1); let d = dkg_commitments::<C>(ids, f);
+    assert(ids.remove(i).insert(i) =~= ids);
+    assert(m.dom() =~= d.dom());
+    assert forall|l: Identifier<C>| m.contains_key(l) implies m[l] == d[l] by { if l != i { assert(r1.contains_key(l)); } }
+    assert(m =~= d);
+}
+
+// (T-a) in the honest run no guard of part3 fires, every received share passes the VSS check against its sender's commitment, and the
+// commitments sum up: the three premises of the `value` clause of the part3 contract hold
+//@serves C07 C01
+pub proof fn thm_honest_part3_no_error<C: Ciphersuite>(ids: Set<Identifier<C>>, f: Polys<C>, t: u16, n: u16, i: Identifier<C>,
+        s2: R2Sec<C>, r1: R1Map<C>, r2: R2Map<C>)
+    requires dkg_setup::<C>(ids, f, t, n), honest_part3_inputs::<C>(ids, f, t, n, i, s2, r1, r2)
+    ensures spec_part3_guard_err::<C>(s2, r1, r2) is None,
+        spec_first_share_err::<C>(sorted_seq(r2.dom()), r1, r2, s2.identifier, 0) is None,
+        spec_dkg_group_commitment::<C>(spec_part3_commitments::<C>(s2, r1)) is Ok,
+{
+    // guards: n - 1 packages in both maps, own identifier in neither, same keys
+    assert(r1.dom().len() == n - 1);
+    assert(spec_part3_guard_err::<C>(s2, r1, r2) is None);
+    // shares
+    let keys = sorted_seq(r2.dom());
+    lemma_sorted_exists::<C>(r2.dom());
+    assert forall|k: int| 0 <= k < keys.len() implies spec_share_err::<C>(i, r2[#[trigger] keys[k]].signing_share.0.0, r1[keys[k]].commitment.0@, keys[k]) is None by {
+        let l = keys[k];
+        assert(keys.contains(l)); assert(keys.to_set().contains(l));
+        assert(r2.contains_key(l) && r1.contains_key(l) && ids.contains(l));
+        thm_share_accepted_iff::<C>(i, poly::<AL<C>>(f(l), i.0.0), f(l), l);
+    }
+    lemma_first_share_err_none::<C>(keys, r1, r2, i, keys.len() as int);
+    // commitments
+    lemma_part3_commitments_honest::<C>(ids, f, t, n, i, s2, r1, r2);
+    lemma_honest_group_commitment::<C>(ids, f, t, n);
+}
+
+// the signing share part3 computes (received shares in ascending sender order, then the own share) is F(i) = sum_l f(l)(i)
+//@serves C07 C01
+pub proof fn lemma_honest_signing_share<C: Ciphersuite>(ids: Set<Identifier<C>>, f: Polys<C>, t: u16, n: u16, i: Identifier<C>,
+        s2: R2Sec<C>, r1: R1Map<C>, r2: R2Map<C>)
+    requires dkg_setup::<C>(ids, f, t, n), honest_part3_inputs::<C>(ids, f, t, n, i, s2, r1, r2)
+    ensures sadd::<C>(spec_r2_sum::<C>(sorted_seq(r2.dom()), r2, sorted_seq(r2.dom()).len() as int), s2.secret_share.0)
+            == poly::<AL<C>>(dkg_sum_poly::<C>(ids, f, t), i.0.0),
+        poly::<AL<C>>(dkg_sum_poly::<C>(ids, f, t), i.0.0) == id_sum::<C>(sorted_seq(ids), refresh_term::<C>(f, i.0.0)),
+{
+    let x = i.0.0;
+    let g = refresh_term::<C>(f, x);
+    // reuse the refresh lemma with an "old share" of zero
+    let zero_kp = KeyPackage::<C> { header: default_header::<C>(), identifier: i, signing_share: SigningShare(SerializableScalar(s0::<C>())),
+        verifying_share: VerifyingShare(SerializableElement(e0::<C>())), verifying_key: VerifyingKey::<C> { element: SerializableElement(e0::<C>()) }, min_signers: t };
+    lemma_refresh_new_share_as_id_sum::<C>(s2, r2, zero_kp, g);
+    let p = sorted_seq(r2.dom()).push(i);
+    let sum = sadd::<C>(spec_r2_sum::<C>(sorted_seq(r2.dom()), r2, sorted_seq(r2.dom()).len() as int), s2.secret_share.0);
+    FF::<C>::ax_add_zero(sum); FF::<C>::ax_add_zero(id_sum::<C>(p, g));
+    assert(sum == id_sum::<C>(p, g));
+    // reorder: senders ++ [own]  ->  ascending over all participants
+    let srt = sorted_seq(ids);
+    lemma_sorted_exists::<C>(ids);
+    assert(ids.remove(i).insert(i) =~= ids);
+    lemma_id_sum_perm::<C>(p, srt, g);
+    assert forall|k: int| 0 <= k < srt.len() implies f(#[trigger] srt[k]).len() == t as nat by { assert(srt.contains(srt[k])); assert(ids.contains(srt[k])); }
+    lemma_psum_general::<C>(srt, f, t as nat, x);
+}
+
+// the public key package derived from the group commitment G*F: entry j is G*F(j), the group key is G*F(0), threshold t
+//@serves C07 C01
+pub proof fn lemma_honest_public_package<C: Ciphersuite>(pk: PublicKeyPackage<C>, ids: Set<Identifier<C>>, bigf: Seq<Scalar<C>>)
+    requires bigf.len() >= 1, spec_is_pk_from_commitment::<C>(pk, ids, spec_commitment::<C>(bigf))
+    ensures pk.verifying_key.element.0 == gmul::<C>(bigf[0]), pk.min_signers == Some(bigf.len() as u16), pk.verifying_shares@.dom() == ids,
+        forall|j: Identifier<C>| ids.contains(j) ==> (#[trigger] pk.verifying_shares@[j]).0.0 == gmul::<C>(poly::<AL<C>>(bigf, j.0.0)),
+        crate::vprops_sign::honest_keys::<C>(bigf, pk.verifying_key.element.0, pk.verifying_shares@, ids),
+{
+    assert(spec_commitment::<C>(bigf).len() == bigf.len());
+    assert(spec_commitment::<C>(bigf)[0].0.0 == gmul::<C>(bigf[0]));
+    assert forall|j: Identifier<C>| ids.contains(j) implies (#[trigger] pk.verifying_shares@[j]).0.0 == gmul::<C>(poly::<AL<C>>(bigf, j.0.0)) by {
+        lemma_vss_complete::<C>(bigf, j.0.0, s1::<C>());
+        lemma_one_mul::<AL<C>>(poly::<AL<C>>(bigf, j.0.0));
+    }
+    assert forall|id: Identifier<C>| #[trigger] ids.contains(id) implies pk.verifying_shares@.contains_key(id)
+        && pk.verifying_shares@[id].0.0 == gmul::<C>(poly::<AL<C>>(bigf, id.0.0)) by { assert(pk.verifying_shares@.dom().contains(id)); }
+}
+
+// (T-b, T-d) THE COMPOSITION THEOREM, one participant: whatever key package / public key package part3 hands to the post_dkg hook in the honest
+// run (spec_part3_pre: the `value` clause of the part3 contract) satisfies, with F = sum_l f(l) the sum polynomial:
+//   signing share = F(i) = sum_l f(l)(i);  verifying share = G*F(i) = the participant's entry in the public key package;
+//   entry j of the public key package = G*F(j) for EVERY participant j;  group key (both packages) = G*F(0) = sum of the constant-term commitments;
+//   threshold t in both packages;  the key material is `honest_keys` on F (the premise of the signing theorems of C01/C04)
+//@serves C07 C01 C09
+pub proof fn thm_honest_dkg_output<C: Ciphersuite>(ids: Set<Identifier<C>>, f: Polys<C>, t: u16, n: u16, i: Identifier<C>,
+        s2: R2Sec<C>, r1: R1Map<C>, r2: R2Map<C>, kp: KeyPackage<C>, pk: PublicKeyPackage<C>)
+    requires dkg_setup::<C>(ids, f, t, n), honest_part3_inputs::<C>(ids, f, t, n, i, s2, r1, r2), spec_part3_pre::<C>(kp, pk, s2, r1, r2)
+    ensures ({
+        let bigf = dkg_sum_poly::<C>(ids, f, t);
+        let srt = sorted_seq(ids);
+        &&& bigf.len() == t && srt.len() == n && srt.no_duplicates() && srt.to_set() == ids
+        &&& kp.identifier == i && kp.min_signers == t && pk.min_signers == Some(t) && kp.header == default_header::<C>() && pk.header == default_header::<C>()
+        &&& kp.signing_share.0.0 == poly::<AL<C>>(bigf, i.0.0)
+        &&& kp.signing_share.0.0 == id_sum::<C>(srt, refresh_term::<C>(f, i.0.0))
+        &&& kp.verifying_share.0.0 == gmul::<C>(kp.signing_share.0.0)
+        &&& kp.verifying_share == pk.verifying_shares@[i]
+        &&& kp.verifying_key == pk.verifying_key
+        &&& pk.verifying_key.element.0 == gmul::<C>(bigf[0])
+        &&& bigf[0] == id_sum::<C>(srt, const_term::<C>(f))
+        &&& pk.verifying_key.element.0 == spec_col_sum::<C>(spec_dkg_commitment_list::<C>(dkg_commitments::<C>(ids, f)), 0, n as int)
+        &&& pk.verifying_shares@.dom() == ids
+        &&& forall|j: Identifier<C>| ids.contains(j) ==> (#[trigger] pk.verifying_shares@[j]).0.0 == gmul::<C>(poly::<AL<C>>(bigf, j.0.0))
+        &&& crate::vprops_sign::honest_keys::<C>(bigf, pk.verifying_key.element.0, pk.verifying_shares@, ids)
+    })
+{
+    let bigf = dkg_sum_poly::<C>(ids, f, t);
+    let srt = sorted_seq(ids);
+    lemma_sorted_exists::<C>(ids);
+    lemma_part3_commitments_honest::<C>(ids, f, t, n, i, s2, r1, r2);
+    lemma_honest_group_commitment::<C>(ids, f, t, n);
+    lemma_honest_signing_share::<C>(ids, f, t, n, i, s2, r1, r2);
+    lemma_honest_public_package::<C>(pk, ids, bigf);
+    assert forall|k: int| 0 <= k < srt.len() implies f(#[trigger] srt[k]).len() == t as nat by { assert(srt.contains(srt[k])); assert(ids.contains(srt[k])); }
+    lemma_psum_const::<C>(srt, f, t as nat);
+    // the group key as the column-0 sum of the commitment list
+    let cs = spec_dkg_commitment_list::<C>(dkg_commitments::<C>(ids, f));
+    assert(spec_sum_commitments::<C>(cs) is Ok);
+    assert((spec_sum_commitments::<C>(cs)->Ok_0)[0].0.0 == spec_col_sum::<C>(cs, 0, cs.len() as int));
+    assert(cs.len() == n);
+}
+
+// (T-c) the public key package does not depend on the participant: any two participants of the honest run hold the same one
+//@serves C07 C09
+pub proof fn thm_honest_dkg_same_public_package<C: Ciphersuite>(ids: Set<Identifier<C>>, f: Polys<C>, t: u16, n: u16,
+        i1: Identifier<C>, s2a: R2Sec<C>, r1a: R1Map<C>, r2a: R2Map<C>, kp1: KeyPackage<C>, pk1: PublicKeyPackage<C>,
+        i2: Identifier<C>, s2b: R2Sec<C>, r1b: R1Map<C>, r2b: R2Map<C>, kp2: KeyPackage<C>, pk2: PublicKeyPackage<C>)
+    requires honest_part3_inputs::<C>(ids, f, t, n, i1, s2a, r1a, r2a), honest_part3_inputs::<C>(ids, f, t, n, i2, s2b, r1b, r2b),
+        spec_part3_pre::<C>(kp1, pk1, s2a, r1a, r2a), spec_part3_pre::<C>(kp2, pk2, s2b, r1b, r2b)
+    ensures pk1.verifying_shares@ =~= pk2.verifying_shares@, pk1.verifying_key == pk2.verifying_key, pk1.min_signers == pk2.min_signers, pk1.header == pk2.header,
+        kp1.verifying_key == kp2.verifying_key, kp1.min_signers == kp2.min_signers
+{
+    lemma_part3_commitments_honest::<C>(ids, f, t, n, i1, s2a, r1a, r2a);
+    lemma_part3_commitments_honest::<C>(ids, f, t, n, i2, s2b, r1b, r2b);
+    let gc = spec_dkg_group_commitment::<C>(dkg_commitments::<C>(ids, f))->Ok_0;
+    thm_same_commitments_same_public_package::<C>(pk1, pk2, ids, gc);
+}
+
+// (T-e) default world: in the honest run part3 RETURNS Ok((kp, pk)) with the packages of the composition theorem.  The second premise is the
+// `value` clause of the part3 contract (contracts/dkg.vc), the third the default world (post_dkg is the identity; the Taproot suite: C18)
+//@serves C07 C01
+pub proof fn thm_honest_dkg_part3_returns<C: Ciphersuite>(res: Part3Result<C>, ids: Set<Identifier<C>>, f: Polys<C>, t: u16, n: u16, i: Identifier<C>,
+        s2: R2Sec<C>, r1: R1Map<C>, r2: R2Map<C>)
+    requires dkg_setup::<C>(ids, f, t, n), honest_part3_inputs::<C>(ids, f, t, n, i, s2, r1, r2),
+        spec_part3_guard_err::<C>(s2, r1, r2) is None
+            && spec_first_share_err::<C>(sorted_seq(r2.dom()), r1, r2, s2.identifier, 0) is None
+            && spec_dkg_group_commitment::<C>(spec_part3_commitments::<C>(s2, r1)) is Ok
+            ==> exists|kp0: KeyPackage<C>, pk0: PublicKeyPackage<C>| #[trigger] spec_part3_pre::<C>(kp0, pk0, s2, r1, r2) && res == C::spec_post_dkg(kp0, pk0),
+        default_world::<C>(),
+    ensures res is Ok, spec_part3_pre::<C>((res->Ok_0).0, (res->Ok_0).1, s2, r1, r2)
+{
+    thm_honest_part3_no_error::<C>(ids, f, t, n, i, s2, r1, r2);
+    let (kp0, pk0) = choose|kp0: KeyPackage<C>, pk0: PublicKeyPackage<C>| #[trigger] spec_part3_pre::<C>(kp0, pk0, s2, r1, r2) && res == C::spec_post_dkg(kp0, pk0);
+    assert(C::spec_post_dkg(kp0, pk0) == Ok::<(KeyPackage<C>, PublicKeyPackage<C>), Error<C>>((kp0, pk0)));
+}
+
 } // verus!
 }
